@@ -498,6 +498,7 @@ func (in *Interp) xmlPartialHavoc(tp *Ptr, T types.Type) {
 		}
 	}
 	fill(tp, T, fmt.Sprintf("xmlpartial.%d", n))
+	in.Ghost["choice:xmlpartial.leak"] = 1
 	for _, f := range structFields(T) {
 		pt, ok := f.Type.Underlying().(*types.Pointer)
 		if !ok {
